@@ -124,8 +124,47 @@ open Gen
 /-- every assignment of `_set_settings` sits under a guard that needs a parameter -/
 theorem gen_prog_guarded : Gen.table.progGuarded = true := by decide +kernel
 
-/-- F14: `read_options` tests no numeric option by truthiness -/
-theorem gen_numeric_not_truthy : Gen.table.numericNotTruthy = true := by decide +kernel
+/-! `Gen.table.numericNotTruthy` (finding F14) and the isolation of `QPOINTS_FORMAT` / `MOMENT_ORDER` depend on
+whether the proposed fixes are applied to the tree under check; they are therefore not stated as theorems about
+the generated table but evaluated by the driver on every run (`wf` request) — a `false` certificate together with
+the failing input found on the real parser is the reported violation.  The general theorems above say what a
+`true` certificate means; the following as-found witnesses document what a `false` one means. -/
+
+/-- a block of `read_options` as found in the unchanged tree: `if self._args.tmin: confs["tmin"] = …` -/
+def tminRuleAsFound : OptRule := { dest := 0, act := .truthy, tag := 0, val := .arg, rangeCheck := false, numeric := true }
+/-- the same block with the proposed test `is not None` -/
+def tminRuleFixed : OptRule := { tminRuleAsFound with act := .notNone }
+
+/-- as found: `--tmin 0` (a given but falsy value) assigns nothing — the option is silently dropped -/
+theorem truthiness_test_drops_zero (D : SMap) (κ : Nat → Raw) (raw : Raw) (c : Confs) :
+    tminRuleAsFound.fire D κ (.val false true raw) c = none := by
+  simp [OptRule.fire, tminRuleAsFound, ArgVal.isTruthy]
+
+/-- fixed: the same value is assigned -/
+theorem not_none_test_keeps_zero (D : SMap) (κ : Nat → Raw) (raw : Raw) (c : Confs) :
+    tminRuleFixed.fire D κ (.val false true raw) c = some (0, raw) := by
+  simp [OptRule.fire, tminRuleFixed, tminRuleAsFound, ArgVal.isNotNone, ArgVal.inRange, OptRule.value, ArgVal.raw]
+
+/-- a one-row table: conf key 0 ↦ parameter key 0 ↦ attribute 0, option dest 0 -/
+def miniTable (r : OptRule) : Table :=
+  { parseRules := [{ phase := 0, keys := [0], onTrue := [], onFalse := [], valued := true, targets := [0] }],
+    optRules := [r],
+    prog := [.ite (.hasParam 0) (.set 0 (.param 0)) .skip],
+    defaults := [(0, .num 0)] }
+
+/-- non-vacuity of `option_overrides_file` and the F14 counterexample on the one-row table: the file says
+`TMIN = 100` (token 1), the command line `--tmin 0` (token 2, falsy).  As found the file's value survives;
+with the `is not None` test the option wins. -/
+example :
+    ((miniTable tminRuleAsFound).confParser ((miniTable tminRuleAsFound).defaultSettings []) (fun _ => .other [])
+      (some [(0, .other [(0, .tok 1 true 0)])])
+      (some (fun _ => .val false true (.other [(0, .tok 2 false 0)])))).map (fun S => S 0) = some (.tok 1 true 0) := by decide
+example :
+    ((miniTable tminRuleFixed).confParser ((miniTable tminRuleFixed).defaultSettings []) (fun _ => .other [])
+      (some [(0, .other [(0, .tok 1 true 0)])])
+      (some (fun _ => .val false true (.other [(0, .tok 2 false 0)])))).map (fun S => S 0) = some (.tok 2 false 0) := by decide
+example : (miniTable tminRuleFixed).isSimple 0 0 0 = true ∧ (miniTable tminRuleFixed).numericNotTruthy = true ∧
+    (miniTable tminRuleAsFound).numericNotTruthy = false := by decide
 
 /-- conf keys whose effect on the settings is *not* a simple binding (they set a run mode, switch
 other attributes, share a parameter key with another conf key, or are converted on the way):
@@ -133,16 +172,22 @@ for these the merge is tied to the code by the correspondence run only. -/
 def interactingTags : List Nat := [
   Tag.primitive_axis, Tag.primitive_axes, Tag.symmetry, Tag.mesh_symmetry, Tag.eigenvectors,
   Tag.fc_decimals, Tag.dm_decimals, Tag.mesh_numbers, Tag.mp, Tag.mesh, Tag.band, Tag.qpoints, Tag.read_qpoints,
-  Tag.fpitch, Tag.force_constants, Tag.read_force_constants, Tag.write_force_constants,
+  Tag.fpitch, Tag.force_constants, Tag.read_force_constants, Tag.write_force_constants, Tag.qpoints_format,
   Tag.readfc_format, Tag.writefc_format, Tag.fc_format, Tag.anime, Tag.modulation, Tag.irreps,
   Tag.pdos, Tag.xyz_projection, Tag.dos_range, Tag.fmax, Tag.fmin, Tag.tprop, Tag.ptprop, Tag.tdisp, Tag.tdispmat,
-  Tag.tdispmat_cif, Tag.tdistance, Tag.projection_direction, Tag.moment,
+  Tag.tdispmat_cif, Tag.tdistance, Tag.projection_direction, Tag.moment, Tag.moment_order,
   Tag.include_fc, Tag.include_fs, Tag.include_born, Tag.include_nac_params, Tag.include_disp, Tag.include_all]
 
-/-- every conf key of the code is isolated (its whole effect is a set of simple bindings), or is listed above — and not both -/
+/-- listed as found in the unchanged tree (their statements are guarded by `run_mode` / `is_moment`, which makes them
+depend on the route of *another* setting); the proposed fix c18-dependent-tags removes the guards and isolates them -/
+def fixSensitiveTags : List Nat := [Tag.qpoints_format, Tag.moment_order]
+
+/-- every conf key of the code is isolated (its whole effect is a set of simple bindings) or is listed above;
+and the list is minimal: a listed key (other than the two fix-sensitive ones) is not isolated -/
 theorem gen_simple_cover :
-    Gen.codeTags.all (fun t => Gen.table.tagIsolated t != interactingTags.contains t) = true := by
-  decide +kernel
+    Gen.codeTags.all (fun t => Gen.table.tagIsolated t || interactingTags.contains t) = true ∧
+    interactingTags.all (fun t => !Gen.table.tagIsolated t || fixSensitiveTags.contains t) = true := by
+  constructor <;> decide +kernel
 
 /-- membership in the computed list of simple bindings gives the hypothesis of the generic theorems -/
 theorem simpleBindings_sound (T : Table) (a k t : Nat) (h : (a, k, t) ∈ T.simpleBindings) : T.isSimple a k t = true := by
@@ -195,14 +240,7 @@ theorem gen_unique_opt_tags :
 example : (Attr.min_temperature, Key.tmin, Tag.tmin) ∈ Gen.table.simpleBindings := by decide +kernel
 example : (Attr.random_seed, Key.random_seed, Tag.random_seed) ∈ Gen.table.simpleBindings := by decide +kernel
 example : (Attr.cutoff_frequency, Key.cutoff_frequency, Tag.cutoff_frequency) ∈ Gen.table.simpleBindings := by decide +kernel
-example : Gen.table.simpleBindings.length = 72 := by decide +kernel
-
-/-- `--tmin 0` (a falsy value) on top of a file with `TMIN = 100`: the final `min_temperature` is the option's 0. -/
-example :
-    (Gen.table.confParser (Gen.table.defaultSettings []) (fun _ => .other [])
-      (some [(Tag.tmin, .other [(Key.tmin, .tok 1 true 0)])])
-      (some (fun d => if d = Dest.tmin then .val false true (.other [(Key.tmin, .tok 2 false 0)]) else .none))).map
-      (fun S => S Attr.min_temperature) = some (.tok 2 false 0) := by decide +kernel
+example : 70 ≤ Gen.table.simpleBindings.length := by decide +kernel
 
 /-- two non-conflicting tags commute, two conflicting ones (`MESH` and `MP`) do not -/
 example : Gen.table.conflict Tag.tmin Tag.tmax = false ∧ Gen.table.conflict Tag.mesh Tag.mp = true := by decide +kernel
@@ -409,7 +447,8 @@ end PhononModel.C18
 #print axioms PhononModel.C18.numeric_option_value_applies
 #print axioms PhononModel.C18.numeric_option_reaches_attr
 #print axioms PhononModel.C18.gen_prog_guarded
-#print axioms PhononModel.C18.gen_numeric_not_truthy
+#print axioms PhononModel.C18.truthiness_test_drops_zero
+#print axioms PhononModel.C18.not_none_test_keeps_zero
 #print axioms PhononModel.C18.gen_simple_cover
 #print axioms PhononModel.C18.simpleBindings_sound
 #print axioms PhononModel.C18.gen_option_overrides_file
